@@ -34,11 +34,23 @@ def _count_uses(node, name):
     return n
 
 
+def _hole_uses(node, name):
+    n = 0
+    for x in walk_json(node):
+        if isinstance(x, dict) and x.get('t') == 'h' and x.get('s') == name:
+            n += 1
+    return n
+
+
 def _rename(node, mapping):
     if isinstance(node, list):
         return [_rename(x, mapping) for x in node]
     if not isinstance(node, dict):
         return node
+    if node.get('t') == 'h' and node.get('s') in mapping and isinstance(mapping[node['s']], str):
+        n2 = dict(node)
+        n2['s'] = mapping[node['s']]
+        return n2
     if node.get('k') == 'Path' and 'path' in node and len(node['path'].get('segs', [])) == 1 and node['path']['s'] in mapping and not node['path'].get('global'):
         if isinstance(mapping[node['path']['s']], dict):
             return copy.deepcopy(mapping[node['path']['s']])      # an argument expression used exactly once
@@ -51,58 +63,115 @@ def _rename(node, mapping):
     return {k: (_rename(v, mapping) if not (isinstance(k, str) and k.startswith('_')) else v) for k, v in node.items()}
 
 
-def inlinable(g):
+def inlinable(g, with_try):
+    """(params, statements, value expression) of a helper that can be substituted for a call; with_try: the call is `g(..)?`
+    (the helper must end in `Ok(E)`; `return Err(..)` and `?` inside are fine); otherwise the helper must not return early or use `?`
+    and its tail expression is the value"""
     it = g.item
-    if it.get('vis') not in ('', None) or g.self_ty is not None:
+    if it.get('vis') not in ('', None) and not (it.get('vis') or '').startswith('pub(super)'):
+        return None
+    if g.self_ty is not None:
         return None
     blk = it['block']
     st = blk.get('stmts', [])
     if not st or st[-1]['k'] != 'Expr' or st[-1]['semi']:
         return None
     tail = st[-1]['expr']
-    if not (tail['k'] == 'Call' and tail['func']['k'] == 'Path' and tail['func']['path']['s'] == 'Ok' and len(tail['args']) == 1):
-        return None
+    if with_try:
+        if not (tail['k'] == 'Call' and tail['func']['k'] == 'Path' and tail['func']['path']['s'] == 'Ok' and len(tail['args']) == 1):
+            return None
+        value = tail['args'][0]
+    else:
+        value = tail
     for x in walk_json(blk):
         if isinstance(x, dict):
             if x.get('k') == 'Return':
                 v = x.get('expr')
-                if not (isinstance(v, dict) and v.get('k') == 'Call' and v['func'].get('k') == 'Path' and v['func']['path']['s'] == 'Err'):
+                if not with_try or not (isinstance(v, dict) and v.get('k') == 'Call' and v['func'].get('k') == 'Path' and v['func']['path']['s'] == 'Err'):
                     return None
-            if x.get('k') == 'Call' and x['func'].get('k') == 'Path' and x['func']['path']['s'] == g.name:
+            if x.get('k') == 'Try' and not with_try:
+                return None
+            if x.get('k') == 'Call' and x['func'].get('k') == 'Path' and x['func']['path']['s'].split('::')[-1] == g.name:
                 return None       # recursive
             if x.get('k') == 'Item':
                 return None
     params = []
     for a in it['sig']['inputs']:
-        if a['k'] != 'Typed' or a['pat']['k'] != 'Ident':
+        if a['k'] != 'Typed':
             return None
-        params.append(a['pat']['name'])
-    return params, st[:-1], tail['args'][0]
+        pt = a['pat']
+        if pt['k'] == 'Wild':
+            params.append(None)
+        elif pt['k'] == 'Ident':
+            params.append(pt['name'])
+        else:
+            return None
+    return params, st[:-1], value
 
 
-def expand_call(crate, caller, call):
-    if call['func']['k'] != 'Path' or len(call['func']['path']['segs']) != 1:
+def _candidates(crate, caller, call):
+    f = call['func']
+    if f['k'] != 'Path':
+        return []
+    segs = [x['id'] for x in f['path']['segs']]
+    name = segs[-1]
+    if len(segs) == 1:
+        mods = [caller.module]
+    elif len(segs) == 2 and segs[0] == 'super':
+        mods = [m for m in crate.modules.values() if tuple(m.path) == tuple(caller.module.path[:-1])]
+    else:
+        return []
+    return [g for g in crate.fns if g.name == name and g.module in mods and g.self_ty is None and g is not caller]
+
+
+def expand_call(crate, caller, call, with_try, stmt_position):
+    gs = _candidates(crate, caller, call)
+    if not gs:
         return None
-    name = call['func']['path']['s']
-    gs = [g for g in crate.fns if g.name == name and g.module is caller.module and g.self_ty is None and g is not caller]
-    if len(gs) != 1:
-        return None
+    l = call.get('l', 0)
+    if len(gs) > 1:
+        # cfg twins of one helper: each twin must be a pure expression; the call becomes
+        #   { #[cfg(a)] let __v = <body a>; #[cfg(not(a))] let __v = <body b>; __v }
+        parts = []
+        for g in gs:
+            inf = inlinable(g, with_try)
+            if inf is None or inf[1] or len(inf[0]) != len(call['args']) or not (g.item.get('attrs')):
+                return None
+            parts.append((g, inf))
+        stmts = []
+        for g, (params, _, value) in parts:
+            mapping = {}
+            for p_, a_ in zip(params, call['args']):
+                if p_ is not None:
+                    mapping[p_] = a_ if not (_strip_refs(a_)['k'] == 'Path' and len(_strip_refs(a_)['path']['segs']) == 1) else _strip_refs(a_)['path']['s']
+            cfg_attrs = [a for a in g.item.get('attrs', []) if a.get('name') == 'cfg']
+            if not cfg_attrs:
+                return None
+            crate.inlined_into[id(g)] = crate.inlined_into.get(id(g), 0) + 1
+            stmts.append({'k': 'Local', 'pat': {'k': 'Ident', 'name': '__inlined_value', 'by_ref': False, 'mut': False, 'sub': None, 'l': l}, 'ty': None,
+                          'init': copy.deepcopy(_rename(value, mapping)), 'else': None, 'attrs': copy.deepcopy(cfg_attrs), 'l': l})
+        return {'k': 'Block', 'l': l, 'inlined': gs[0].qname,
+                'stmts': stmts + [{'k': 'Expr', 'expr': {'k': 'Path', 'path': {'segs': [{'id': '__inlined_value'}], 's': '__inlined_value', 'global': False}, 'qself': None, 'l': l},
+                                   'semi': False, 'l': l}]}
     g = gs[0]
-    inf = inlinable(g)
+    inf = inlinable(g, with_try)
     if inf is None:
         return None
     params, stmts, value = inf
+    if stmts and not stmt_position:
+        return None          # a helper with statements is only substituted where a block may stand (let initialiser / statement)
     if len(params) != len(call['args']):
         return None
     mapping = {}
     lets = []
-    l = call.get('l', 0)
     for p, a in zip(params, call['args']):
+        if p is None:
+            continue
         x = _strip_refs(a)
         if x['k'] == 'Path' and len(x['path']['segs']) == 1:
             if x['path']['s'] != p:
                 mapping[p] = x['path']['s']
-        elif _count_uses(stmts, p) + _count_uses(value, p) == 1:
+        elif _count_uses(stmts, p) + _count_uses(value, p) == 1 and not (_hole_uses(stmts, p) + _hole_uses(value, p)):
             mapping[p] = a
         else:
             lets.append({'k': 'Local', 'pat': {'k': 'Ident', 'name': p, 'by_ref': False, 'mut': False, 'sub': None, 'l': l}, 'ty': None,
@@ -116,6 +185,8 @@ def expand_call(crate, caller, call):
     crate.inlined_into[id(g)] = crate.inlined_into.get(id(g), 0) + 1
     body = copy.deepcopy([_rename(s_, mapping) for s_ in stmts])
     val = copy.deepcopy(_rename(value, mapping))
+    if not lets and not body:
+        return dict(val, inlined_expr=g.qname) if isinstance(val, dict) else val
     return {'k': 'Block', 'l': l, 'inlined': g.qname,
             'stmts': lets + body + [{'k': 'Expr', 'expr': val, 'semi': False, 'l': l}]}
 
@@ -125,11 +196,9 @@ def _call_sites(crate):
     cnt = {}
     for f in crate.fns:
         for x in walk_json(f.item.get('block')):
-            if isinstance(x, dict) and x.get('k') == 'Call' and isinstance(x.get('func'), dict) and x['func'].get('k') == 'Path' and len(x['func']['path'].get('segs', [])) == 1:
-                name = x['func']['path']['s']
-                for g in crate.fns:
-                    if g.name == name and g.module is f.module and g.self_ty is None and g is not f:
-                        cnt[id(g)] = cnt.get(id(g), 0) + 1
+            if isinstance(x, dict) and x.get('k') == 'Call' and isinstance(x.get('func'), dict) and x['func'].get('k') == 'Path':
+                for g in _candidates(crate, f, x):
+                    cnt[id(g)] = cnt.get(id(g), 0) + 1
     return cnt
 
 
@@ -180,22 +249,40 @@ def _inline_in(crate, f, node, depth):
     if node.get('k') == 'Block' and isinstance(node.get('stmts'), list):
         for st in node['stmts']:
             slot = None
-            if st['k'] == 'Local' and isinstance(st.get('init'), dict) and st['init'].get('k') == 'Try':
+            if st['k'] == 'Local' and isinstance(st.get('init'), dict):
                 slot = ('init', st)
-            elif st['k'] == 'Expr' and isinstance(st.get('expr'), dict) and st['expr'].get('k') == 'Try':
+            elif st['k'] == 'Expr' and isinstance(st.get('expr'), dict):
                 slot = ('expr', st)
             if slot is not None:
                 key, holder = slot
-                call = holder[key]['expr']
+                e = holder[key]
+                with_try = e.get('k') == 'Try'
+                call = e['expr'] if with_try else e
                 if isinstance(call, dict) and call.get('k') == 'Call':
-                    blk = expand_call(crate, f, call)
+                    blk = expand_call(crate, f, call, with_try, True)
                     if blk is not None:
                         holder[key] = blk
                         n += 1 + _inline_in(crate, f, blk, depth + 1)
                         continue
-    for k, v in node.items():
+    # expression positions: pure-expression helpers (and cfg twins of them)
+    for k, v in list(node.items()):
         if isinstance(k, str) and k.startswith('_'):
             continue
-        if isinstance(v, (dict, list)):
+        if isinstance(v, dict):
+            if v.get('k') == 'Call' and k not in ('func',):
+                rep_ = expand_call(crate, f, v, False, False)
+                if rep_ is not None:
+                    node[k] = rep_
+                    n += 1 + _inline_in(crate, f, rep_, depth + 1)
+                    continue
             n += _inline_in(crate, f, v, depth)
+        elif isinstance(v, list):
+            for idx, x in enumerate(v):
+                if isinstance(x, dict) and x.get('k') == 'Call' and k in ('args',):
+                    rep_ = expand_call(crate, f, x, False, False)
+                    if rep_ is not None:
+                        v[idx] = rep_
+                        n += 1 + _inline_in(crate, f, rep_, depth + 1)
+                        continue
+                n += _inline_in(crate, f, x, depth)
     return n
